@@ -37,7 +37,7 @@ def entries():
 def gen_template(rng, e):
     g = catalog.Choices(rng=rng, seed_value=0, callback=(lambda *a, **k: None) if e["cb"] else None)
     e["build"](g)
-    return {"entry": e["name"], "choices": list(g.rec)}
+    return {"entry": e["name"], "choices": list(g.rec), "tenalg": "einsum" if rng.random() < 0.3 else "core"}
 
 
 def gen_record(rng, r):
@@ -170,7 +170,11 @@ class Run:
         st.update(in_call=True, ev=0, op=i, foreign=False, switched=False)
         before = rngenv.state_digest()
         inv = self.sched.stamp()
+        import tensorly.tenalg as _ta
+
         try:
+            # thread-local selection through the real manager: other sim-threads are unaffected
+            _ta.set_backend(tm.get("tenalg", "core"), local_threadsafe=True)
             with np.errstate(all="ignore"):  # thread-local in NumPy
                 res = call["fn"](**call["kwargs"])
             out = snapshot.digest(res)
@@ -519,7 +523,7 @@ def replay_file(path):
 
 # ------------------------------------------------------------------ driver interface
 
-QUICK_RUNS = 6000
+QUICK_RUNS = 10000
 CHUNK = 50
 CHUNK_TIMEOUT = 900
 THOROUGH_S = 1200
